@@ -142,7 +142,11 @@ class Tensor:
                 shape = root.estimateShape()
 
             self.setRankInfo(rank_ids, shape, default)
-            self.setRoot(root)
+            if isinstance(root, Fiber):
+                self.setRoot(root)
+            else:
+                # rank-0 tensor: the root is a bare payload
+                self._root = Payload(root)
             self.setName(name)
             self.setColor(color)
             self.setMutable(False)
